@@ -42,7 +42,7 @@ def enc_case(sysd, op=None):
     op = sysd["op"] if op is None else op
     kind = sysd["kind"]
     akind = 0 if op in (1, 3, 8) else kind
-    out = [op, kind, 1 if sysd["lsq"] else 0, len(sysd["names"])]
+    out = [op, kind, (1 if sysd["lsq"] else 0) + 2 * sysd.get("layout", 0), len(sysd["names"])]
     for nm in sysd["names"]:
         out += enc_name(nm)
     out += [sysd["r"], sysd["c"]]
@@ -56,6 +56,17 @@ def enc_case(sysd, op=None):
 
 def line(c):
     return " ".join(str(x) for x in c)
+
+
+LAYOUTS = ["row-major", "column-major", "strided (every other column)", "row-reversed view"]
+
+
+def model_case(c):
+    """the case as the model sees it: the memory layout in which the implementation is handed A (bits 1.. of the third
+    field) is no part of the mathematical system"""
+    c = list(c)
+    c[2] &= 1
+    return c
 
 
 # ------------------------------------------------------------------------------------------------
@@ -480,7 +491,8 @@ def describe(s, op=None):
     return "%s on a %dx%d system, entries %s%s, allow_lsq=%s, pattern %s%s" % (
         OPNAME[op], s["r"], s["c"], ("f64 matrix / %s rhs" % KINDS[s["kind"]]) if op in (1, 3, 8) else KINDS[s["kind"]],
         "", s["lsq"], s["pattern"], ((", malformed: %s" % s["malformed"]) if s["malformed"] else "") +
-        ((", scaled: %s" % "+".join(s["scaling"])) if s.get("scaling") else ""))
+        ((", scaled: %s" % "+".join(s["scaling"])) if s.get("scaling") else "") +
+        ((", A handed over %s" % LAYOUTS[s["layout"]]) if s.get("layout") else ""))
 
 
 def readable(s):
@@ -556,6 +568,10 @@ def run(ctx):
             if rng.random() < 0.15 and s["r"] >= 2:
                 systems.append(permuted(rng, s))
                 pairs.append((len(systems) - 2, len(systems) - 1))
+    # the same system handed over in another MEMORY LAYOUT (column-major, strided, reversed view): the solution is the same
+    for s in systems:
+        s["layout"] = rng.choice([0, 0, 0, 1, 1, 2, 3])
+        ctx.count("memory layout of A: " + LAYOUTS[s["layout"]])
     cases = [enc_case(s) for s in systems]
     # the residual oracle runs on the real code only
     oracle_idx = [i for i, s in enumerate(systems) if s["op"] in (0, 1) and not s["malformed"] and not s.get("scaling")]
@@ -565,7 +581,7 @@ def run(ctx):
     impl = impl[:len(cases)]
     sizes = [len(c) for c in cases]
     shard = max(4, min(60, len(cases) // (NCPU * 2) + 1))
-    model = coq_eval("Run.RunLinalg", "runLinalg", cases, ctx.work, shard=shard, tag="c13")
+    model = coq_eval("Run.RunLinalg", "runLinalg", [model_case(c) for c in cases], ctx.work, shard=shard, tag="c13")
 
     nbit = nlay = nlaytot = 0
     for s, c, a, b in zip(systems, cases, impl, model):
@@ -735,7 +751,7 @@ def replay(ctx, rp):
         print("replay row permutation: %s vs %s" % (summarize(ca, va), summarize(cb, vb)))
         ctx.cleanup()
         return 0 if same else 1
-    b = coq_eval("Run.RunLinalg", "runLinalg", [c], ctx.work)[0]
+    b = coq_eval("Run.RunLinalg", "runLinalg", [model_case(c)], ctx.work)[0]
     kind, m = c[1], c[3]
     ca, va, _ = split_out(a, kind, m, op)
     cb, vb, _ = split_out(b, kind, m, op)
